@@ -250,6 +250,9 @@ pub fn run_batch(property: &str, tier: Tier, base_seed: u64, classes: &[ClassSpe
             let current = &current;
             hs.push(s.spawn(move || {
                 WORKER_SLOT.with(|c| c.set(t));
+                // std seeds its per-thread hash-map keys from OS entropy on first use: do that now, with the
+                // seam off, so that no run's entropy stream depends on which run happens to be first on a thread
+                let _ = std::collections::hash_map::RandomState::new();
                 loop {
                     if stop.load(Ordering::Relaxed) {
                         break;
